@@ -1,6 +1,7 @@
 """C18 — every worker is a fresh, initialised interpreter with only intended inheritance."""
 from ..ech import H
 
+ENGINE = "E-SYM+E-CH"
 LEVEL = "other"
 EXPLANATION = (
     "Bounded symbolic execution (CrossHair/z3) of the real fork_exec (environment merge, close_fds, pass_fds, error "
